@@ -40,6 +40,8 @@ def build_cases(ctx, n_stmts, muts, n_soups, n_gram=30):
     from . import grammargen
     for d in DIALECTS:
         gen = grammargen.texts(ctx, d, n_gram if d == 'mindsdb' else max(4, n_gram // 3))
+        for s, types, used in grammargen.cover_texts(ctx, d, variants=3):
+            cases.append((s, d, 'production-cover'))
         for s, types, used in gen:
             cases.append((s, d, 'grammar-sentence'))
         rng.shuffle(gen)
